@@ -13,6 +13,9 @@
 #include "unit.c"
 int nondet_int(void);
 int in_x0, in_y0, in_z0, in_k;
+#ifndef W_X
+#define W_X 7
+#endif
 #define SMALL(v) int v = nondet_int(); __CPROVER_assume(-100000 < v && v < 100000); in_##v = v
 void c_alias(void)
 {
@@ -66,5 +69,30 @@ void c_move(void)
     __CPROVER_assert(!m->overflow && named, "[C14,C03,C15] POST moved.the_report_names_the_saturated_expectation_which_moved_with_the_mock"); }
   __CPROVER_assert(vp_exc == 0 && !vp_terminated, "[C14] POST moved.everything_is_released_quietly_at_scope_exit");
   __CPROVER_assert(0, "REACH! c_move");
+}
+/* C01 / C15: a call whose argument does not fit the expected value is one fatal no-match report that prints every actual
+ * argument and lists the live expectation with the parameter that rejected the call */
+void c_param_mismatch(void)
+{
+  /* the first argument is concrete per variant (W_X = 5: fits, 7: does not), so that the match decision folds; the second is free */
+  int x0 = W_X; SMALL(y0); struct OBS o; g_tracer_obj_ptr = 0;
+  C15_PM(x0, y0, &o);
+  __CPROVER_assert(o.ret == (x0 == 5), "[C01,C10] POST param.accepted_iff_the_plain_value_operand_equals_the_argument");
+  __CPROVER_assert(o.extra == 1 && vp_exc == 0 && !vp_terminated, "[C01] POST param.the_fitting_call_is_handled");
+  __CPROVER_assert(vp_rep_n == (x0 == 5 ? 0 : 1), "[C01,C15] POST param.a_call_that_fits_no_expectation_is_exactly_one_report");
+  if (x0 != 5) {
+    const struct vp_string *m = &vp_rep[0].msg; int nx = 0, ny = 0, n5 = 0; _Bool named = 0;
+    __CPROVER_assert(vp_rep[0].sev == 0 && !m->overflow, "[C15] POST param.the_report_is_fatal");
+    for (int k = 0; k < VP_TOK_CAP; k++) if (k < m->n) {
+      if (m->t[k].kind == VP_T_INT && (int)m->t[k].v == x0) nx++;
+      if (m->t[k].kind == VP_T_INT && (int)m->t[k].v == y0) ny++;
+      if (m->t[k].kind == VP_T_INT && (int)m->t[k].v == 5) n5++;
+      if (m->t[k].kind == VP_T_CSTR && m->t[k].p != 0 && ((const char *)m->t[k].p)[0] == 'm' && ((const char *)m->t[k].p)[1] == '.' && ((const char *)m->t[k].p)[2] == 'p') named = 1;
+    }
+    __CPROVER_assert(nx >= 1 && ny >= 1, "[C15] POST param.the_report_prints_every_actual_argument");
+    __CPROVER_assert(named, "[C15] POST param.the_report_lists_the_live_expectation_with_its_text");
+    __CPROVER_assert(n5 >= 1, "[C15] POST param.the_listed_expectation_shows_the_expected_value_of_the_parameter_that_rejected_the_call");
+  }
+  __CPROVER_assert(0, "REACH! c_param_mismatch");
 }
 int main(void) { VP_ENTRY(); return 0; }
